@@ -109,6 +109,18 @@ def make_math(obj: dict, bounds):
                 s += z * z
             return s
 
+    elif fam == "pit":
+        # a small region in which the value is infinite in the *good* direction (legal, if degenerate)
+        rad = float(obj.get("rad", 0.15))
+
+        def g(x):
+            xs = x.tolist()
+            s = 0.0
+            for i in rng:
+                z = (xs[i] - c[i]) / R[i]
+                s += z * z
+            return -math.inf if s < rad * rad else s
+
     elif fam == "absv":
 
         def g(x):
@@ -128,6 +140,8 @@ def g_min(obj: dict, bounds) -> float:
     fam = obj["fam"]
     if fam == "constant":
         return float(obj.get("v", 0.0))
+    if fam == "pit":
+        return -math.inf
     if fam == "linear":
         return float(sum(min(float(w), 0.0) for w in obj["w"][: len(bounds)]))
     return 0.0
@@ -149,6 +163,8 @@ def gen_objective(rng, d: int, fam: str | None = None) -> dict:
         obj["q"] = rng.choice([4.0, 8.0, 30.0])
     elif fam == "constant":
         obj["v"] = rng.choice([0.0, 1.5, -2.0])
+    elif fam == "pit":
+        obj["rad"] = rng.choice([0.1, 0.2, 0.3])
     elif fam == "face":
         side = [rng.choice([-1, 1, 0]) for _ in range(d)]
         if not any(side):
